@@ -8,7 +8,11 @@ import (
 	"sort"
 	"strings"
 
+	"golang.org/x/tools/go/callgraph"
+	"golang.org/x/tools/go/callgraph/cha"
+	"golang.org/x/tools/go/callgraph/vta"
 	"golang.org/x/tools/go/ssa"
+	"golang.org/x/tools/go/ssa/ssautil"
 
 	"mhubsa/load"
 )
@@ -26,6 +30,7 @@ type Prog struct {
 	Out map[*ssa.Function][]Edge
 	In  map[*ssa.Function][]Edge
 
+	vtaGraph    *callgraph.Graph
 	closureSite map[*ssa.Function]*ssa.MakeClosure // anonymous function -> its MakeClosure
 	implCache   map[string][]*ssa.Function
 	keyCache    map[ssa.Value]*Key
@@ -68,8 +73,40 @@ func NewProg(l *load.Loaded) *Prog {
 			}
 		}
 	}
+	p.vtaGraph = vta.CallGraph(ssautil.AllFunctions(l.Prog), cha.CallGraph(l.Prog))
 	p.buildCallGraph()
 	return p
+}
+
+// vtaTargets returns the module functions VTA resolves an interface call site to.
+func (p *Prog) vtaTargets(site ssa.CallInstruction) ([]*ssa.Function, bool) {
+	if p.vtaGraph == nil {
+		return nil, false
+	}
+	n := p.vtaGraph.Nodes[site.Parent()]
+	if n == nil {
+		return nil, false
+	}
+	var out []*ssa.Function
+	found := false
+	for _, e := range n.Out {
+		if e.Site != site {
+			continue
+		}
+		found = true
+		fn := e.Callee.Func
+		if fn.Synthetic != "" && fn.Object() != nil {
+			if obj, ok := fn.Object().(*types.Func); ok {
+				if d := p.L.Prog.FuncValue(obj); d != nil {
+					fn = d
+				}
+			}
+		}
+		if p.isMod[fn] && !load.IsTestSupport(p.L.Fset.Position(fn.Pos()).Filename) {
+			out = append(out, fn)
+		}
+	}
+	return out, found
 }
 
 // FuncName renders "pkg.Recv.Name", "pkg.Name" or "pkg.Outer$1" with the
@@ -408,7 +445,24 @@ func (p *Prog) buildCallGraph() {
 					kind = "defer"
 				}
 				if cc.IsInvoke() {
-					for _, impl := range p.Implementations(cc) {
+					impls := p.Implementations(cc)
+					// refine the CHA set with VTA where VTA resolved the site
+					if tg, ok := p.vtaTargets(site); ok && len(tg) > 0 {
+						keep := map[*ssa.Function]bool{}
+						for _, t := range tg {
+							keep[t] = true
+						}
+						var ref []*ssa.Function
+						for _, impl := range impls {
+							if keep[impl] {
+								ref = append(ref, impl)
+							}
+						}
+						if len(ref) > 0 {
+							impls = ref
+						}
+					}
+					for _, impl := range impls {
 						p.addEdge(Edge{fn, site, impl, "iface"})
 					}
 					continue
@@ -693,6 +747,11 @@ type SSAValue = ssa.Value
 // that parameter on the current call chain (falling back to all bound
 // functions when the chain does not determine them).
 func (p *Prog) ReachCS(root *ssa.Function) map[*ssa.Function]bool {
+	return p.ReachCSBound(root, nil)
+}
+
+// ReachCSBound is ReachCS with an initial binding of root's function-typed parameters.
+func (p *Prog) ReachCSBound(root *ssa.Function, bind0 map[*ssa.Parameter][]*ssa.Function) map[*ssa.Function]bool {
 	seen := map[*ssa.Function]bool{}
 	type ctxKey struct {
 		fn  *ssa.Function
@@ -764,6 +823,93 @@ func (p *Prog) ReachCS(root *ssa.Function) map[*ssa.Function]bool {
 			walk(e.Callee, nb, depth+1)
 		}
 	}
-	walk(root, map[*ssa.Parameter][]*ssa.Function{}, 0)
+	if bind0 == nil {
+		bind0 = map[*ssa.Parameter][]*ssa.Function{}
+	}
+	walk(root, bind0, 0)
 	return seen
+}
+
+// RecursiveCS reports whether f can reach itself through static calls and callbacks, with callbacks
+// bound context-sensitively; interface-dispatched edges are ignored (their targets are a type-based
+// over-approximation) unless withIface is set.
+func (p *Prog) RecursiveCS(f *ssa.Function, withIface bool) (bool, []string) {
+	type ctxKey struct {
+		fn  *ssa.Function
+		sig string
+	}
+	done := map[ctxKey]bool{}
+	var path []string
+	var walk func(g *ssa.Function, bind map[*ssa.Parameter][]*ssa.Function, depth int) bool
+	walk = func(g *ssa.Function, bind map[*ssa.Parameter][]*ssa.Function, depth int) bool {
+		if depth > 40 {
+			return false
+		}
+		sig := ""
+		for _, par := range g.Params {
+			if fs, ok := bind[par]; ok {
+				for _, x := range fs {
+					sig += fmt.Sprintf("%p,", x)
+				}
+				sig += ";"
+			}
+		}
+		k := ctxKey{g, sig}
+		if done[k] {
+			return false
+		}
+		done[k] = true
+		for _, e := range p.Out[g] {
+			if e.Kind == "iface" && !withIface {
+				continue
+			}
+			if e.Kind == "param" {
+				_, pars, _ := resolveFuncValue(e.Site.Common().Value, map[ssa.Value]bool{})
+				allowed, known := false, false
+				for _, par := range pars {
+					if fs, ok := bind[par]; ok {
+						known = true
+						for _, x := range fs {
+							if x == e.Callee {
+								allowed = true
+							}
+						}
+					}
+				}
+				if known && !allowed {
+					continue
+				}
+			}
+			if e.Callee == f {
+				path = append(path, FuncName(g))
+				return true
+			}
+			nb := map[*ssa.Parameter][]*ssa.Function{}
+			args := siteArgsOf(e.Site.Common())
+			for i, par := range e.Callee.Params {
+				if _, ok := par.Type().Underlying().(*types.Signature); !ok || i >= len(args) {
+					continue
+				}
+				fs, pars, _ := resolveFuncValue(args[i], map[ssa.Value]bool{})
+				var bound []*ssa.Function
+				bound = append(bound, fs...)
+				for _, q := range pars {
+					bound = append(bound, bind[q]...)
+				}
+				nb[par] = bound
+			}
+			if e.Callee.Parent() != nil {
+				for k2, v2 := range bind {
+					nb[k2] = v2
+				}
+			}
+			if walk(e.Callee, nb, depth+1) {
+				path = append(path, FuncName(g))
+				return true
+			}
+		}
+		return false
+	}
+	ok := walk(f, map[*ssa.Parameter][]*ssa.Function{}, 0)
+	return ok, path
 }
